@@ -426,6 +426,7 @@ class Fn:
         self.j = j
         self.crate = crate
         self.path = j["path"]
+        self.dp = j.get("dp", j["path"])
         self.kind = j["kind"]
         self.name = j["name"]
         self.root = j["root"]
@@ -504,10 +505,29 @@ class Program:
         for c in self.libs.values():
             for f in c.fns:
                 self.fns[f.path] = f
+        self.by_dp = {}
+        for c in self.libs.values():
+            for f in c.fns:
+                self.by_dp[f.dp] = f
         self.adts = {}
         for c in self.libs.values():
             self.adts.update(c.adts)
         self._closures_of = None
+
+    def target(self, term):
+        """the workspace function a call terminator resolves to (across crates), or None
+        (std / external crate / unresolved generic trait method)"""
+        if term.j.get("resolved_dp") and term.j.get("resolved_kind") == "item":
+            f = self.by_dp.get(term.j["resolved_dp"])
+            if f is not None:
+                return f
+        if term.j.get("callee_dp") and not term.j.get("trait"):
+            return self.by_dp.get(term.j["callee_dp"])
+        return None
+
+    def closure_fn(self, rv):
+        """the body of the closure built by an `agg closure` rvalue"""
+        return self.by_dp.get(rv.j.get("closure_dp")) or self.fns.get(rv.j.get("closure"))
 
     # ------------------------------------------------------------------ lookup
     def fn(self, path):
